@@ -41,3 +41,32 @@ Proof.
 Qed.
 
 End NestedP.
+
+(* C18, with_state: in the extended configuration the sub-parser runs from the given state -- a fresh copy on every
+   invocation, whatever the outer state is -- and the outer state is untouched afterwards; cursor, errors and outcome
+   are those of the sub-parser *)
+Section WithStateP.
+Variable Q : quirks.
+Variable K : ekind.
+Variable toks : list tok.
+Variable spn : nat -> nat -> span.
+
+Lemma with_state_spec f n m k a ctx s :
+  nested Q = Some f ->
+  go Q K toks spn (S n) m (WithState k a) ctx s =
+    (fst (go Q K toks spn n m a ctx (set_ust s k)), set_ust (snd (go Q K toks spn n m a ctx (set_ust s k))) (ust s)).
+Proof. intros H. cbn [go]. rewrite H. destruct (go Q K toks spn n m a ctx (set_ust s k)); reflexivity. Qed.
+
+Lemma with_state_outer_untouched f n m k a ctx s :
+  nested Q = Some f -> ust (snd (go Q K toks spn (S n) m (WithState k a) ctx s)) = ust s.
+Proof. intros H. rewrite (with_state_spec f) by assumption. reflexivity. Qed.
+
+Lemma with_state_inner_is_fresh f n m k a ctx s s' :
+  nested Q = Some f -> cur s = cur s' -> sec s = sec s' -> alt s = alt s' -> memo s = memo s' ->
+  fst (go Q K toks spn (S n) m (WithState k a) ctx s) = fst (go Q K toks spn (S n) m (WithState k a) ctx s').
+Proof.
+  intros H Hc Hs Ha Hm. rewrite !(with_state_spec f) by assumption. cbn [fst].
+  replace (set_ust s' k) with (set_ust s k); [reflexivity|]. unfold set_ust. now rewrite Hc, Hs, Ha, Hm.
+Qed.
+End WithStateP.
+
